@@ -17,7 +17,7 @@ from fractions import Fraction
 
 from common import CORPUS_DIR, call
 
-RULE = ("histories: a well-formed network of 3..10 grid lanelets (ids from 0 upwards; the spatial index of the source network fresh or stale — lanelets added with add_lanelet(rtree=False) after the index was built, remove_lanelet(rtree=False); random pred/succ/adjacency incl. mutual adjacency, 0..4 shared "
+RULE = ("histories: a well-formed network of 1..10 grid lanelets (built through one of three public routes: LaneletNetwork.add_* + add_objects(network) / create_from_lanelet_list / Scenario.add_objects object by object with lanelet_ids; optional constructor arguments omitted, None or empty; areas; ids as Python or numpy integers; read-only queries and user edits through setters, in-place mutation and add_* between the operations; cut-outs whose result goes into a fresh Scenario, through replace_lanelet_network, or is dropped while the history stays on the source network; list and object forms of every scenario-level removal incl. remove_hanging_lanelet_members called directly; ids from 0 upwards; the spatial index of the source network fresh or stale — lanelets added with add_lanelet(rtree=False) after the index was built, remove_lanelet(rtree=False); random pred/succ/adjacency incl. mutual adjacency, 0..4 shared "
         "signs and 0..3 lights, stop lines whose refs are subsets of the lanelet's refs, 0..2 intersections with 1..3 incomings "
         "spanning arbitrary lanelets, crossings) followed by 1..5 operations drawn from LaneletNetwork.remove_lanelet / "
         "remove_traffic_sign / remove_traffic_light / remove_intersection, Scenario.remove_lanelet (lists, with and without "
@@ -43,6 +43,23 @@ ASSUMPTIONS = [
     "well-formed start network = no dangling reference + stop-line refs covered by the lanelet + pairwise different ids (what "
     "Scenario.add_objects enforces); the 15% malformed histories are outside it and feed the correspondence only "
     "(C10_noNewDangling_* and C10_frame_* still apply to them in the model)",
+    "DIMENSIONS (harness/c10_dims.py, 175 entries, checked against the real signatures every run): every constructor parameter, "
+    "setter and public method of Lanelet, StopLine, IntersectionIncomingElement, Intersection, LaneletNetwork, of the "
+    "TrafficSign / TrafficLight constructors and of the lanelet-network side of Scenario has one decision: varied / content / "
+    "query / operation / edit / no-influence / outside",
+    "edits between two operations (setters, in-place mutation of the lists / sets the properties hand out, add_lanelet / "
+    "add_traffic_sign(lanelet_ids) / add_intersection, translate_rotate) are the user's changes, not removals: they are not "
+    "judged; the model and the oracle start again from the edited network (if it is still well-formed)",
+    "outside the quantifier, named here: re-assigning lanelet_id / intersection_id / incoming_id of an element that already "
+    "sits in a network (the dict key and Scenario._id_set go stale); IntersectionIncomingElement without incoming lanelets; "
+    "ShapeGroup as shape_input and a single Lanelet handed to remove_hanging_lanelet_members (both raise before anything "
+    "changes); AREAS: they are neither elements nor relations of the property and are not modelled — observations "
+    "(buckets obs:*): LaneletNetwork.remove_area leaves the lanelets' adjacent_areas untouched although its docstring promises "
+    "to delete all references, and create_from_lanelet_list copies adjacent_areas into a network without areas; on either "
+    "network create_from_lanelet_network raises AssertionError (add_area(None)) — such cut-outs are left out of the history",
+    "after a cut-out the history continues in a fresh Scenario, through Scenario.replace_lanelet_network (only when _id_set is "
+    "consistent, so that the model's id pool = ids of the new network), or stays on the source network (the cut-out is then "
+    "compared on its own and the source network must be unchanged: key source-network-changed)",
     "scenario-level removals are modelled as in the repaired tree (look-up in the network first, KeyError without any change "
     "when the element is not there); stale objects whose id is still in Scenario._id_set are generated "
     "(bucket stale:id-still-in-pool)",
@@ -50,7 +67,10 @@ ASSUMPTIONS = [
 TRUSTED = ["harness/c10.py snapshot(): reads every id-valued attribute through the public accessors; the content of an element "
            "(geometry, types, markings, sign elements, light cycle) is compared through a SHA-1 digest of those attributes"]
 REQUIRED_BUCKETS = ["net_remove_lanelet", "net_remove_sign", "net_remove_light", "net_remove_inter", "scn_remove_lanelets",
-                    "scn_remove_signs", "scn_remove_lights", "scn_remove_inter", "cut_out", "from_list",
+                    "scn_remove_signs", "scn_remove_lights", "scn_remove_inters", "scn_remove_hanging", "net_remove_area", "cut_out", "from_list",
+                    "query", "after-query", "edit", "after-edit", "edit:add_lanelet", "edit:translate", "edit:set_adj", "edit:inc_set",
+                    "edit:set_stop", "build:net", "build:list", "build:scenario", "ctor:none-for-empty", "arg:numpy-int",
+                    "then:replace_lanelet_network", "then:stay-on-source", "empty-network-left",
                     "cut:shape", "cut:types", "cut:incoming-dropped", "cut:intersection-dropped", "cut:sign-dropped",
                     "hanging:sign-removed", "hanging:sign-kept-shared", "lanelet-ref-cleaned", "adjacency-cleaned",
                     "stopline-ref-cleaned", "intersection-ref-cleaned", "error:key", "stale:id-still-in-pool", "cut:shape-on-stale-index", "id0:adjacent-lanelet-removed", "stream:wf", "stream:malformed"]
@@ -65,7 +85,7 @@ def gen_case(ctx):
     r = ctx.rng
     x = r.random()
     stream = "wf" if x < 0.85 else ("dangling" if x < 0.93 else "stopline")
-    nl = r.choice([3, 4, 5, 5, 6, 6, 7, 8, 9, 10])
+    nl = r.choice([1, 2, 3, 4, 5, 5, 6, 6, 7, 8, 9, 10])
     ns = r.choice([0, 1, 2, 2, 3, 4])
     nt = r.choice([0, 1, 1, 2, 3])
     ni = r.choice([0, 1, 1, 1, 2])
@@ -88,6 +108,7 @@ def gen_case(ctx):
     at = {}
     for i, c in zip(lids, cells):
         at.setdefault(c, i)
+    area_ids = [ghost[2] + 10 + k for k in range(r.choice([0, 0, 1, 2]))]   # areas: referenced by lanelets, copied by cut-outs
 
     def some(ids, lo=0, hi_=3):
         if not ids:
@@ -100,6 +121,12 @@ def gen_case(ctx):
         la = {"id": i, "cell": [c, rr], "nv": r.choice([2, 2, 3]), "types": some(TYPES, 0, 2), "pred": [], "succ": [],
               "adjL": None, "adjLSame": None, "adjR": None, "adjRSame": None, "signs": some(sids, 0, 2),
               "lights": some(tids, 0, 2), "stop": None}
+        if r.random() < 0.5:
+            la["mark"] = [r.choice(MARKS), r.choice(MARKS)]
+        if r.random() < 0.4:
+            la["users"] = [some(USERS, 0, 2), some(USERS, 0, 2)]
+        if area_ids and r.random() < 0.5:
+            la["areas"] = some(area_ids, 0, 2)
         lanelets.append(la)
     by = {la["id"]: la for la in lanelets}
     for la in lanelets:
@@ -124,10 +151,11 @@ def gen_case(ctx):
             la["succ"].append(la["succ"][0])  # a duplicate entry in the Python list
         if r.random() < 0.45:
             la["stop"] = {"s": None if r.random() < 0.3 else some(la["signs"], 0, 2),
-                          "t": None if r.random() < 0.3 else some(la["lights"], 0, 2)}
+                          "t": None if r.random() < 0.3 else some(la["lights"], 0, 2), "m": r.choice(MARKS)}
     signs = [{"id": i, "elem": r.choice(["U1", "U2", "U3", "U4"]), "val": r.choice(["10", "30", "50"]),
               "fo": some(lids, 0, 2), "virtual": r.random() < 0.2} for i in sids]
-    lights = [{"id": i, "cyc": [[r.randrange(4), r.randint(1, 9)] for _ in range(r.randint(1, 3))], "off": r.randint(0, 5)}
+    lights = [{"id": i, "cyc": [[r.randrange(4), r.randint(1, 9)] for _ in range(r.randint(1, 3))], "off": r.randint(0, 5),
+               "nocycle": r.random() < 0.15, "active": r.random() < 0.8, "dir": r.choice(["ALL", "ALL", "LEFT", "STRAIGHT_RIGHT"])}
               for i in tids]
     inters = []
     for i, k in zip(iids, ninc):
@@ -170,9 +198,25 @@ def gen_case(ctx):
     dead_l, dead_s, dead_t, dead_i = [], [], [], []
     kinds = (["net_remove_lanelet"] * 3 + ["scn_remove_lanelets"] * 5 + ["net_remove_sign", "scn_remove_signs",
              "net_remove_light", "scn_remove_lights", "net_remove_inter", "scn_remove_inter"] + ["cut_out"] * 5 + ["from_list"])
-    for _ in range(r.choice([1, 2, 2, 3, 3, 4, 5])):
+    kinds = kinds + ["scn_remove_hanging", "net_remove_area"]
+    n_real = r.choice([1, 2, 2, 3, 3, 4, 5])
+    while n_real > 0:
+        y = r.random()
+        if y < 0.12:       # read-only queries before the next operation (caches, lazily computed attributes)
+            ops.append({"op": "query", "q": r.sample(QUERIES, r.randint(1, 4)), "a": r.randrange(1000)})
+            continue
+        if y < 0.22:       # the user edits the network through setters / in-place / add_* between two removals
+            ops.append(gen_edit(r, cols, rows))
+            continue
+        n_real -= 1
         k = r.choice(kinds)
-        if k == "net_remove_lanelet":
+        if k == "net_remove_area":
+            ops.append({"op": k, "x": r.choice(area_ids + ghost[:1])})
+        elif k == "scn_remove_hanging":
+            if not alive_l:
+                continue
+            ops.append({"op": k, "ids": some(alive_l, 1, 3)})
+        elif k == "net_remove_lanelet":
             x = r.choice(alive_l + ghost[:1]) if alive_l else ghost[0]
             ops.append({"op": k, "x": x, "rtree": r.random() < 0.7})
             if x in alive_l:
@@ -219,12 +263,15 @@ def gen_case(ctx):
             if not alive_i and not dead_i:
                 continue
             if not alive_i:
-                ops.append({"op": k, "x": r.choice(dead_i)})
+                ops.append({"op": "scn_remove_inters", "ids": [r.choice(dead_i)], "single": r.random() < 0.5})
                 continue
-            x = r.choice(alive_i + (dead_i if r.random() < 0.2 else []))   # sometimes a stale object
-            ops.append({"op": k, "x": x})
-            if x in alive_i:
-                alive_i.remove(x); dead_i.append(x)
+            xs = some(alive_i, 1, 2)
+            if r.random() < 0.2 and dead_i:
+                xs.append(r.choice(dead_i))                     # a stale object
+            ops.append({"op": "scn_remove_inters", "ids": xs, "single": len(xs) == 1 and r.random() < 0.5})
+            for x in xs:
+                if x in alive_i:
+                    alive_i.remove(x); dead_i.append(x)
         elif k == "cut_out":
             y = r.random()
             if y < 0.25:
@@ -246,20 +293,51 @@ def gen_case(ctx):
             excl = None if r.random() < 0.4 else some(TYPES, 0, 2)
             if shape is None and not excl and r.random() < 0.7:
                 excl = some(TYPES, 1, 2)
-            ops.append({"op": k, "shape": shape, "excl": excl, "cleanup": r.random() < 0.9})
+            ops.append({"op": k, "shape": shape, "excl": excl, "cleanup": r.random() < 0.9,
+                        "then": r.choice(["fresh", "fresh", "replace", "replace", "stay"]), "kw": r.random() < 0.3})
         elif k == "from_list":
             if not alive_l:
                 continue
             ids = some(alive_l, 1, 4)
             if r.random() < 0.15:
                 ids.append(ids[0])
-            ops.append({"op": k, "ids": ids, "cleanup": r.random() < 0.85})
-    if not ops:
+            ops.append({"op": k, "ids": ids, "cleanup": r.random() < 0.85, "then": r.choice(["fresh", "replace"])})
+    if not any(o["op"] not in ("query", "edit") for o in ops):
         ops.append({"op": "net_remove_lanelet", "x": lids[0]})
     # spatial index of the source network: built after `indexed` lanelets, the others arrive with add_lanelet(rtree=False)
     indexed = nl if r.random() < 0.6 else r.randint(0, nl - 1)
+    route = r.choice(["net", "net", "list", "scenario"])
+    if route != "net":
+        indexed = nl
     return {"stream": stream, "lanelets": lanelets, "signs": signs, "lights": lights, "inters": inters, "indexed": indexed,
-            "ops": ops}
+            "areas": [{"id": a, "types": some(["BUS_STOP", "PARKING", "BORDER"], 0, 2)} for a in area_ids],
+            "build": route, "none_empty": r.random() < 0.4, "npint": r.random() < 0.25, "ops": ops}
+
+
+QUERIES = ["find_by_id", "map_inc", "map_incoming", "polygon", "lanelet_polygons", "by_position", "by_shape", "proximity",
+           "sign_referenced", "light_referenced", "distance", "hash_eq", "repr", "deepcopy", "successors_in_range",
+           "merge_successors", "properties"]
+
+
+def gen_edit(r, cols, rows):
+    """An edit of the live network between two removals.  Elements are addressed by index into the sorted ids the network
+    holds at that moment (resolved when the edit is applied), so that the edit stays well-formed whatever was removed."""
+    k = r.choice(["add_succ", "add_pred", "rm_succ", "rm_pred", "set_succ", "set_pred", "append_succ", "set_adj", "set_signs",
+                  "add_sign_ref", "inplace_sign_ref", "set_lights", "set_stop", "stop_ref", "inc_set", "inc_inplace", "crossings",
+                  "incomings_reassign", "add_lanelet", "add_lanelet", "add_sign", "add_light", "add_inter", "translate"])
+    e = {"k": k, "a": r.randrange(1000), "b": r.randrange(1000), "c": r.randrange(1000), "m": r.randrange(64)}
+    if k == "add_lanelet":
+        e.update(cell=[r.randrange(cols), r.randrange(rows)], via=r.choice(["net", "net_nortree", "scn"]),
+                 types=sorted(r.sample(TYPES, r.randint(0, 2))), adj=r.random() < 0.5)
+    if k in ("add_sign", "add_light", "add_inter"):
+        e.update(via=r.choice(["net", "scn"]))
+    if k == "translate":
+        e.update(dx=r.choice([-20, -5, 5, 10, 40]), dy=r.choice([-8, 0, 4, 12]), via=r.choice(["net", "scn"]))
+    if k == "set_adj":
+        e.update(side=r.choice(["L", "R"]), same=r.random() < 0.5)
+    if k in ("inc_set", "inc_inplace"):
+        e.update(f=r.choice(["incoming_lanelets", "successors_right", "successors_straight", "successors_left"]))
+    return {"op": "edit", "e": e}
 
 
 # ------------------------------------------------------------------------------------------------ building the real objects
@@ -269,50 +347,137 @@ def _rect_of(la):
     return (c * CELL_W, rr * CELL_H, c * CELL_W + CELL_W, rr * CELL_H + LANE_H)
 
 
-def build(case):
+MARKS = ["DASHED", "SOLID", "BROAD_DASHED", "NO_MARKING", "UNKNOWN"]
+USERS = ["VEHICLE", "CAR", "BUS", "BICYCLE", "PEDESTRIAN"]
+
+
+def _coll(xs, none_empty, conv):
+    """an optional collection argument: None instead of an empty one when the case asks for it"""
+    return None if (none_empty and not xs) else conv(xs)
+
+
+def mk_lanelet(la, none_empty=False, rect=None):
     import numpy as np
-    from commonroad.common.common_lanelet import LaneletType, LineMarking, StopLine
-    from commonroad.scenario.intersection import Intersection, IntersectionIncomingElement
-    from commonroad.scenario.lanelet import Lanelet, LaneletNetwork
-    from commonroad.scenario.scenario import Scenario
-    from commonroad.scenario.traffic_light import (TrafficLight, TrafficLightCycle, TrafficLightCycleElement,
-                                                   TrafficLightState)
+    from commonroad.common.common_lanelet import LaneletType, LineMarking, RoadUser, StopLine
+    from commonroad.scenario.lanelet import Lanelet
+    x0, y0, x1, y1 = rect or _rect_of(la)
+    xs = [x0, x1] if la["nv"] == 2 else [x0, (x0 + x1) / 2, x1]
+    left = np.array([[x, y1] for x in xs], dtype=float)
+    right = np.array([[x, y0] for x in xs], dtype=float)
+    center = np.array([[x, (y0 + y1) / 2] for x in xs], dtype=float)
+    st = None
+    if la["stop"] is not None:
+        st = StopLine(np.array([float(x1), float(y0)]), np.array([float(x1), float(y1)]),
+                      LineMarking[la["stop"].get("m", "SOLID")],
+                      None if la["stop"]["s"] is None else set(la["stop"]["s"]),
+                      None if la["stop"]["t"] is None else set(la["stop"]["t"]))
+    mark = la.get("mark", ["DASHED", "NO_MARKING"])
+    users = la.get("users", [[], []])
+    kw = {}
+    if "users" in la or not none_empty:
+        kw["user_one_way"] = _coll(users[0], none_empty, lambda v: {RoadUser[u] for u in v})
+        kw["user_bidirectional"] = _coll(users[1], none_empty, lambda v: {RoadUser[u] for u in v})
+    if "areas" in la:
+        kw["adjacent_areas"] = _coll(la["areas"], none_empty, set)
+    return Lanelet(left, center, right, la["id"], predecessor=_coll(la["pred"], none_empty, list),
+                   successor=_coll(la["succ"], none_empty, list),
+                   adjacent_left=la["adjL"], adjacent_left_same_direction=la["adjLSame"],
+                   adjacent_right=la["adjR"], adjacent_right_same_direction=la["adjRSame"],
+                   line_marking_left_vertices=LineMarking[mark[0]], line_marking_right_vertices=LineMarking[mark[1]],
+                   stop_line=st, lanelet_type=_coll(la["types"], none_empty, lambda v: {LaneletType[t] for t in v}),
+                   traffic_signs=_coll(la["signs"], none_empty, set), traffic_lights=_coll(la["lights"], none_empty, set), **kw)
+
+
+def mk_sign(s, none_empty=False):
+    import numpy as np
     from commonroad.scenario.traffic_sign import TrafficSign, TrafficSignElement, TrafficSignIDZamunda
-    ln = LaneletNetwork()
-    indexed = case.get("indexed", len(case["lanelets"]))
-    for n_added, la in enumerate(case["lanelets"]):
-        if n_added == indexed:
-            ln._create_strtree()     # the lanelets after this point are added with the batch switch and never indexed
-        x0, y0, x1, y1 = _rect_of(la)
-        xs = [x0, x1] if la["nv"] == 2 else [x0, (x0 + x1) / 2, x1]
-        left = np.array([[x, y1] for x in xs], dtype=float)
-        right = np.array([[x, y0] for x in xs], dtype=float)
-        center = np.array([[x, (y0 + y1) / 2] for x in xs], dtype=float)
-        st = None
-        if la["stop"] is not None:
-            st = StopLine(np.array([float(x1), float(y0)]), np.array([float(x1), float(y1)]), LineMarking.SOLID,
-                          None if la["stop"]["s"] is None else set(la["stop"]["s"]),
-                          None if la["stop"]["t"] is None else set(la["stop"]["t"]))
-        ln.add_lanelet(Lanelet(left, center, right, la["id"], predecessor=list(la["pred"]), successor=list(la["succ"]),
-                               adjacent_left=la["adjL"], adjacent_left_same_direction=la["adjLSame"],
-                               adjacent_right=la["adjR"], adjacent_right_same_direction=la["adjRSame"],
-                               line_marking_left_vertices=LineMarking.DASHED, stop_line=st,
-                               lanelet_type={LaneletType[t] for t in la["types"]}, traffic_signs=set(la["signs"]),
-                               traffic_lights=set(la["lights"])), rtree=False)
-    if indexed >= len(case["lanelets"]):
-        ln._create_strtree()
-    for s in case["signs"]:
-        el = TrafficSignElement({"U1": TrafficSignIDZamunda.MAX_SPEED, "U2": TrafficSignIDZamunda.STOP,
-                                 "U3": TrafficSignIDZamunda.YIELD, "U4": TrafficSignIDZamunda.MIN_SPEED}[s["elem"]], [s["val"]])
-        ln.add_traffic_sign(TrafficSign(s["id"], [el], set(s["fo"]), np.array([1.0, float(s["id"] % 7)]), s["virtual"]), set())
+    el = TrafficSignElement({"U1": TrafficSignIDZamunda.MAX_SPEED, "U2": TrafficSignIDZamunda.STOP,
+                             "U3": TrafficSignIDZamunda.YIELD, "U4": TrafficSignIDZamunda.MIN_SPEED}[s["elem"]], [s["val"]])
+    return TrafficSign(s["id"], [el], _coll(s["fo"], none_empty, set), np.array([1.0, float(s["id"] % 7)]), s["virtual"])
+
+
+def mk_light(t):
+    import numpy as np
+    from commonroad.scenario.traffic_light import (TrafficLight, TrafficLightCycle, TrafficLightCycleElement,
+                                                   TrafficLightDirection, TrafficLightState)
     states = list(TrafficLightState)
+    cyc = None if t.get("nocycle") else TrafficLightCycle([TrafficLightCycleElement(states[a], d) for a, d in t["cyc"]],
+                                                          time_offset=t["off"])
+    return TrafficLight(t["id"], np.array([2.0, float(t["id"] % 5)]), cyc, active=t.get("active", True),
+                        direction=TrafficLightDirection[t.get("dir", "ALL")])
+
+
+def mk_inter(it, none_empty=False):
+    from commonroad.scenario.intersection import Intersection, IntersectionIncomingElement
+    incs = [IntersectionIncomingElement(k["id"], set(k["inc"]), _coll(k["right"], none_empty, set),
+                                        _coll(k["straight"], none_empty, set), _coll(k["left"], none_empty, set), k["leftOf"])
+            for k in it["incomings"]]
+    return Intersection(it["id"], incs, _coll(it["crossings"], none_empty, set))
+
+
+def mk_area(a):
+    import numpy as np
+    from commonroad.scenario.area import Area, AreaBorder, AreaType
+    border = AreaBorder(a["id"] * 1000 + 1, np.array([[0.0, -5.0], [10.0, -5.0]]))
+    return Area(a["id"], [border], {AreaType[t] for t in a.get("types", [])})
+
+
+def build(case):
+    """The start scenario, assembled through one of three public routes (case["build"]):
+    net       LaneletNetwork.add_lanelet / add_traffic_sign / add_traffic_light / add_intersection, then Scenario.add_objects(network)
+    list      LaneletNetwork.create_from_lanelet_list(lanelets, cleanup_ids=False), then signs / lights / intersections as in `net`
+    scenario  Scenario.add_objects for every lanelet, sign (lanelet_ids=referencing lanelets: the references are added by
+              add_traffic_sign_to_lanelet instead of the Lanelet constructor), light and intersection one by one
+    and with the spatial index built after `indexed` lanelets (route net only)."""
+    from commonroad.scenario.lanelet import LaneletNetwork
+    from commonroad.scenario.scenario import Scenario
+    ne = bool(case.get("none_empty"))
+    route = case.get("build", "net")
+    nl = len(case["lanelets"])
+    if route == "scenario":
+        scn = Scenario(0.1)
+        refs_s = {s["id"]: set() for s in case["signs"]}
+        refs_t = {t["id"]: set() for t in case["lights"]}
+        for la in case["lanelets"]:
+            la2 = dict(la)
+            # sign / light references that name an element of the network arrive through add_objects(sign, lanelet_ids)
+            for x in la["signs"]:
+                if x in refs_s:
+                    refs_s[x].add(la["id"])
+            for x in la["lights"]:
+                if x in refs_t:
+                    refs_t[x].add(la["id"])
+            la2["signs"] = [x for x in la["signs"] if x not in refs_s]
+            la2["lights"] = [x for x in la["lights"] if x not in refs_t]
+            scn.add_objects(mk_lanelet(la2, ne))
+        for a in case.get("areas", []):
+            scn.lanelet_network.add_area(mk_area(a), set())
+        for s_ in case["signs"]:
+            scn.add_objects(mk_sign(s_, ne), refs_s[s_["id"]] or None)
+        for t in case["lights"]:
+            scn.add_objects(mk_light(t), refs_t[t["id"]])
+        for it in case["inters"]:
+            scn.add_objects(mk_inter(it, ne))
+        return scn
+    if route == "list":
+        ln = LaneletNetwork.create_from_lanelet_list([mk_lanelet(la, ne) for la in case["lanelets"]], cleanup_ids=False)
+    else:
+        ln = LaneletNetwork()
+        indexed = case.get("indexed", nl)
+        for n_added, la in enumerate(case["lanelets"]):
+            if n_added == indexed:
+                ln._create_strtree()     # the lanelets after this point are added with the batch switch and never indexed
+            ln.add_lanelet(mk_lanelet(la, ne), rtree=False)
+        if indexed >= nl:
+            ln._create_strtree()
+    for a in case.get("areas", []):
+        ln.add_area(mk_area(a), set())
+    for s_ in case["signs"]:
+        ln.add_traffic_sign(mk_sign(s_, ne), set())
     for t in case["lights"]:
-        cyc = TrafficLightCycle([TrafficLightCycleElement(states[a], d) for a, d in t["cyc"]], time_offset=t["off"])
-        ln.add_traffic_light(TrafficLight(t["id"], np.array([2.0, float(t["id"] % 5)]), cyc), set())
+        ln.add_traffic_light(mk_light(t), set())
     for it in case["inters"]:
-        incs = [IntersectionIncomingElement(k["id"], set(k["inc"]), set(k["right"]), set(k["straight"]), set(k["left"]),
-                                            k["leftOf"]) for k in it["incomings"]]
-        ln.add_intersection(Intersection(it["id"], incs, set(it["crossings"])))
+        ln.add_intersection(mk_inter(it, ne))
     scn = Scenario(0.1)
     scn.add_objects(ln)
     return scn
@@ -366,7 +531,8 @@ def dig_light(t):
 
 
 def _ids(xs):
-    return sorted(int(x) for x in xs)
+    # a collection attribute that holds None is read as empty: the snapshot must not be what breaks on it
+    return sorted(int(x) for x in (xs if xs is not None else ()))
 
 
 def _opt(x):
@@ -424,7 +590,29 @@ class Impl:
         self.case = case
         self.scn = build(case)
         self.stale = case.get("indexed", len(case["lanelets"])) < len(case["lanelets"])   # spatial index misses lanelets
+        self.rects = {la["id"]: _rect_of(la) for la in case["lanelets"]}    # where each lanelet lies (exact, for the oracle)
+        self.types = {la["id"]: set(la["types"]) for la in case["lanelets"]}
+        self.shapes = {}                                                     # shape objects are reused between cut-outs
+        self.npint = bool(case.get("npint"))
+        self.fresh_id = 10 ** 7
         self._remember()
+
+    def _i(self, x):
+        """an id argument: a numpy integer when the case asks for it"""
+        if self.npint:
+            import numpy as np
+            return np.int64(x)
+        return x
+
+    def shape_of(self, sp):
+        key = json.dumps(sp, sort_keys=True)
+        if key not in self.shapes:
+            self.shapes[key] = mk_shape(sp)
+        return self.shapes[key]
+
+    def pool_consistent(self):
+        n = snapshot(self.ln)
+        return set(self.ids()) == set(all_ids(n))
 
     def _remember(self):
         """every object of the network, by id: after a removal (scenario level or network level) the object can be handed in
@@ -451,7 +639,7 @@ class Impl:
     def keep_of(self, op):
         """the filter of create_from_lanelet_network (lanelet.py:1488-1494) evaluated with the implementation's own shapes"""
         from commonroad.common.common_lanelet import LaneletType
-        shape = mk_shape(op["shape"])
+        shape = self.shape_of(op["shape"])
         excl = set() if op["excl"] is None else {LaneletType[t] for t in op["excl"]}
         return sorted(int(la.lanelet_id) for la in self.ln.lanelets
                       if not (la.lanelet_type & excl)
@@ -466,16 +654,16 @@ class Impl:
         if k == "net_remove_lanelet":
             if op.get("rtree", True):
                 self.stale = False
-                return call(self.ln.remove_lanelet, op["x"]), {"op": k, "x": op["x"]}
+                return call(self.ln.remove_lanelet, self._i(op["x"])), {"op": k, "x": op["x"]}
             if self.ln.find_lanelet_by_id(op["x"]) is not None:
                 self.stale = True     # the index still holds the removed lanelet
-            return call(self.ln.remove_lanelet, op["x"], False), {"op": k, "x": op["x"]}
+            return call(self.ln.remove_lanelet, self._i(op["x"]), False), {"op": k, "x": op["x"]}
         if k == "net_remove_sign":
-            return call(self.ln.remove_traffic_sign, op["x"]), {"op": k, "x": op["x"]}
+            return call(self.ln.remove_traffic_sign, self._i(op["x"])), {"op": k, "x": op["x"]}
         if k == "net_remove_light":
-            return call(self.ln.remove_traffic_light, op["x"]), {"op": k, "x": op["x"]}
+            return call(self.ln.remove_traffic_light, self._i(op["x"])), {"op": k, "x": op["x"]}
         if k == "net_remove_inter":
-            return call(self.ln.remove_intersection, op["x"]), {"op": k, "x": op["x"]}
+            return call(self.ln.remove_intersection, self._i(op["x"])), {"op": k, "x": op["x"]}
         if k == "scn_remove_lanelets":
             objs = [o for o in (self._obj("l", x) for x in op["ids"]) if o is not None]
             if not objs:
@@ -498,21 +686,38 @@ class Impl:
             arg = objs[0] if op.get("single") and len(objs) == 1 else objs
             f = self.scn.remove_traffic_sign if kind == "s" else self.scn.remove_traffic_light
             return call(f, arg), {"op": k, "xs": xs}
-        if k == "scn_remove_inter":
-            o = self._obj("i", op["x"])
-            if o is None:
+        if k in ("scn_remove_inter", "scn_remove_inters"):
+            ids_ = [op["x"]] if k == "scn_remove_inter" else op["ids"]
+            objs = [o for o in (self._obj("i", x) for x in ids_) if o is not None]
+            if not objs:
                 return None
-            return call(self.scn.remove_intersection, o), {"op": k, "x": int(o.intersection_id)}
+            arg = objs[0] if (k == "scn_remove_inter" or op.get("single")) and len(objs) == 1 else objs
+            return call(self.scn.remove_intersection, arg), {"op": "scn_remove_inters", "xs": [int(o.intersection_id) for o in objs]}
+        if k == "scn_remove_hanging":
+            objs = [o for o in (self._obj("l", x) for x in op["ids"]) if o is not None]
+            if not objs:
+                return None
+            args = [{"id": int(o.lanelet_id), "signs": _ids(o.traffic_signs), "lights": _ids(o.traffic_lights)} for o in objs]
+            return call(self.scn.remove_hanging_lanelet_members, objs), {"op": k, "args": args}
         if k == "cut_out":
             keep = self.keep_of(op)
-            shape = mk_shape(op["shape"])
+            shape = self.shape_of(op["shape"])
             excl = None if op["excl"] is None else {LaneletType[t] for t in op["excl"]}
-            if op["cleanup"]:
+            if op.get("kw"):
+                kw = {"lanelet_network": self.ln}
+                if shape is not None:
+                    kw["shape_input"] = shape
+                if excl is not None:
+                    kw["exclude_lanelet_types"] = excl
+                if not op["cleanup"]:
+                    kw["cleanup_ids"] = False
+                res = call(LaneletNetwork.create_from_lanelet_network, **kw)
+            elif op["cleanup"]:
                 res = call(LaneletNetwork.create_from_lanelet_network, self.ln, shape, excl)
             else:
                 res = call(LaneletNetwork.create_from_lanelet_network, self.ln, shape, excl, False)
-            if res[0] == "ok":
-                self._fresh(res[1])
+            if res[0] == "ok" and op.get("then") != "stay":
+                self._fresh(res[1], op.get("then"))
             return res, {"op": k, "keep": keep, "cleanup": op["cleanup"]}
         if k == "from_list":
             objs = [o for o in (self.ln.find_lanelet_by_id(x) for x in op["ids"]) if o is not None]
@@ -524,22 +729,235 @@ class Impl:
             else:
                 res = call(LaneletNetwork.create_from_lanelet_list, objs, False)
             if res[0] == "ok":
-                self._fresh(res[1])
+                self._fresh(res[1], op.get("then"))
             return res, {"op": k, "sel": sel, "cleanup": op["cleanup"]}
         raise ValueError(k)
 
-    def _fresh(self, ln):
+    def _fresh(self, ln, how=None):
+        """the history goes on with the new network: in a fresh Scenario (add_objects) or, when the id pool of the current
+        scenario is consistent, through Scenario.replace_lanelet_network"""
         from commonroad.scenario.scenario import Scenario
-        self.scn = Scenario(0.1)
-        self.scn.add_objects(ln)
+        self.replace_error = None
+        if how == "replace" and self.pool_consistent():
+            self.replaced = True
+            r = call(self.scn.replace_lanelet_network, ln)
+            if r[0] != "ok":              # erase_lanelet_network (removals) raised: reported by run_case; go on in a fresh Scenario
+                self.replace_error = r
+                self.scn = Scenario(0.1)
+                self.scn.add_objects(ln)
+        else:
+            self.scn = Scenario(0.1)
+            self.scn.add_objects(ln)
         self.stale = False
         self._remember()
+
+    # ---- read-only queries (never change what the property observes)
+    def query(self, op):
+        import copy as _copy
+        import numpy as np
+        from commonroad.geometry.shape import Rectangle
+        from commonroad.scenario.lanelet import Lanelet
+        ln = self.ln
+        L = sorted(ln.lanelets, key=lambda la: la.lanelet_id)
+        la = L[op.get("a", 0) % len(L)] if L else None
+        for q in op["q"]:
+            try:
+                if q == "find_by_id" and la is not None:
+                    ln.find_lanelet_by_id(self._i(la.lanelet_id)); ln.find_traffic_sign_by_id(0); ln.find_intersection_by_id(0)
+                elif q == "map_inc":
+                    ln.map_inc_lanelets_to_intersections
+                elif q == "map_incoming":
+                    [it.map_incoming_lanelets for it in ln.intersections]
+                elif q == "polygon" and la is not None:
+                    la.polygon.shapely_object; la.convert_to_polygon()
+                elif q == "lanelet_polygons":
+                    ln.lanelet_polygons
+                elif q == "by_position" and la is not None:
+                    ln.find_lanelet_by_position([la.center_vertices[0], np.array([-50.0, -50.0])])
+                elif q == "by_shape":
+                    ln.find_lanelet_by_shape(Rectangle(30.0, 8.0, np.array([10.0, 4.0])))
+                elif q == "proximity":
+                    ln.lanelets_in_proximity(np.array([5.0, 2.0]), 15.0)
+                elif q == "sign_referenced":
+                    [ln.get_traffic_sign_referenced_lanelets(s_.traffic_sign_id) for s_ in ln.traffic_signs]
+                elif q == "light_referenced":
+                    [ln.get_traffic_lights_referenced_lanelets(t.traffic_light_id) for t in ln.traffic_lights]
+                elif q == "distance" and la is not None:
+                    la.distance; la.inner_distance; la.interpolate_position(1.0); la.orientation_by_position(la.center_vertices[0])
+                elif q == "hash_eq" and la is not None:
+                    hash(la); la == L[0]; [hash(it) for it in ln.intersections]; [it == it for it in ln.intersections]
+                elif q == "repr":
+                    [repr(x) for x in L]; [str(x) for x in ln.intersections]; [repr(k) for it in ln.intersections for k in it.incomings]
+                elif q == "deepcopy":
+                    _copy.deepcopy(ln)
+                elif q == "successors_in_range" and la is not None:
+                    la.find_lanelet_successors_in_range(ln, 30.0); la.find_lanelet_predecessors_in_range(ln, 30.0)
+                elif q == "merge_successors" and la is not None:
+                    Lanelet.all_lanelets_by_merging_successors_from_lanelet(la, ln, 40.0)
+                elif q == "properties":
+                    ln.lanelets; ln.traffic_signs; ln.traffic_lights; ln.intersections; ln.areas
+                    [(x.predecessor, x.successor, x.adj_left, x.traffic_signs, x.stop_line, x.lanelet_type, x.adjacent_areas) for x in L]
+            except Exception:  # noqa  a query that raises is not this property's business
+                pass
+
+    # ---- edits through setters / in-place mutation / add_*  (the user changes the network between two removals)
+    def edit(self, op):
+        """-> name of the edit that was applied (None: nothing to act on).  Elements are picked by index among those present."""
+        import numpy as np
+        from commonroad.common.common_lanelet import LineMarking, StopLine
+        e = op["e"]
+        k = e["k"]
+        ln = self.ln
+        L = sorted(ln.lanelets, key=lambda x: x.lanelet_id)
+        S = sorted(int(x.traffic_sign_id) for x in ln.traffic_signs)
+        T = sorted(int(x.traffic_light_id) for x in ln.traffic_lights)
+        I = sorted(ln.intersections, key=lambda x: x.intersection_id)
+        pick = lambda xs, n: xs[n % len(xs)] if xs else None
+        la, lb = pick(L, e["a"]), pick(L, e["b"])
+        mask = lambda xs: {x for j, x in enumerate(xs) if (e["m"] >> (j % 6)) & 1}
+        if k in ("add_succ", "add_pred", "rm_succ", "rm_pred", "set_succ", "set_pred", "append_succ", "set_adj") and la is None:
+            return None
+        if k == "add_succ":
+            la.add_successor(int(lb.lanelet_id))
+        elif k == "add_pred":
+            la.add_predecessor(int(lb.lanelet_id))
+        elif k == "rm_succ":
+            if not la.successor:
+                return None
+            la.remove_successor(la.successor[e["b"] % len(la.successor)])
+        elif k == "rm_pred":
+            if not la.predecessor:
+                return None
+            la.remove_predecessor(la.predecessor[e["b"] % len(la.predecessor)])
+        elif k == "set_succ":
+            la.successor = sorted(mask([int(x.lanelet_id) for x in L]))
+        elif k == "set_pred":
+            la.predecessor = sorted(mask([int(x.lanelet_id) for x in L]), reverse=True)
+        elif k == "append_succ":
+            la.successor.append(int(lb.lanelet_id))                      # in place, on the list the property hands out
+        elif k == "set_adj":
+            if e["side"] == "L":
+                la.adj_left = int(lb.lanelet_id); la.adj_left_same_direction = bool(e["same"])
+            else:
+                la.adj_right = int(lb.lanelet_id); la.adj_right_same_direction = bool(e["same"])
+        elif k in ("set_signs", "set_lights", "add_sign_ref", "inplace_sign_ref"):
+            if la is None:
+                return None
+            st = la.stop_line
+            if k == "set_signs":
+                la.traffic_signs = mask(S) | (set(st.traffic_sign_ref) if st is not None and st.traffic_sign_ref else set())
+            elif k == "set_lights":
+                la.traffic_lights = mask(T) | (set(st.traffic_light_ref) if st is not None and st.traffic_light_ref else set())
+            elif not S:
+                return None
+            elif k == "add_sign_ref":
+                la.add_traffic_sign_to_lanelet(pick(S, e["b"]))
+            else:
+                la.traffic_signs.add(pick(S, e["b"]))                     # in place, on the set the property hands out
+        elif k == "set_stop":
+            if la is None:
+                return None
+            refs_s = {x for x in mask(sorted(la.traffic_signs))}
+            refs_t = {x for x in mask(sorted(la.traffic_lights))}
+            la.stop_line = StopLine(np.array([0.0, 0.0]), np.array([0.0, 3.0]), LineMarking.BROAD_SOLID,
+                                    refs_s if e["c"] % 3 else None, refs_t if e["c"] % 2 else None)
+        elif k == "stop_ref":
+            if la is None or la.stop_line is None:
+                return None
+            la.stop_line.traffic_sign_ref = mask(sorted(la.traffic_signs))
+            la.stop_line.traffic_light_ref = mask(sorted(la.traffic_lights)) if e["c"] % 2 else None
+        elif k in ("inc_set", "inc_inplace", "crossings", "incomings_reassign"):
+            it = pick(I, e["a"])
+            if it is None:
+                return None
+            ids = [int(x.lanelet_id) for x in L]
+            if k == "crossings":
+                it.crossings = mask(ids)
+            elif k == "incomings_reassign":
+                it.incomings = list(reversed(it.incomings))              # the same objects handed back in another order
+            else:
+                inc = pick(it.incomings, e["b"])
+                if inc is None:
+                    return None
+                if k == "inc_set":
+                    v = mask(ids)
+                    if e["f"] == "incoming_lanelets" and not v:
+                        v = set(ids[:1])
+                    setattr(inc, e["f"], v)
+                else:
+                    if not ids:
+                        return None
+                    getattr(inc, e["f"]).add(pick(ids, e["c"]))
+        elif k == "add_lanelet":
+            self.fresh_id += 1
+            i = self.fresh_id
+            spec = {"id": i, "cell": e["cell"], "nv": 2, "types": e["types"], "pred": [int(lb.lanelet_id)] if lb is not None else [],
+                    "succ": [], "adjL": int(la.lanelet_id) if (la is not None and e["adj"]) else None,
+                    "adjLSame": True if (la is not None and e["adj"]) else None, "adjR": None, "adjRSame": None,
+                    "signs": sorted(mask(S)), "lights": [], "stop": None}
+            off = getattr(self, "offset", (0, 0))
+            x0, y0, x1, y1 = _rect_of(spec)
+            rect = (x0 + off[0], y0 + off[1], x1 + off[0], y1 + off[1])
+            obj = mk_lanelet(spec, rect=rect)
+            if e["via"] == "scn":
+                self.scn.add_objects(obj)
+                self.stale = False
+            elif e["via"] == "net":
+                ln.add_lanelet(obj)
+                self.stale = False
+            else:
+                ln.add_lanelet(obj, rtree=False)
+                self.stale = True
+            if lb is not None:
+                lb.add_successor(i)
+            self.rects[i] = rect
+            self.types[i] = set(e["types"])
+            self.grave["l"][i] = obj
+        elif k in ("add_sign", "add_light"):
+            self.fresh_id += 1
+            i = self.fresh_id
+            refs = mask([int(x.lanelet_id) for x in L])
+            if k == "add_sign":
+                obj = mk_sign({"id": i, "elem": "U2", "val": "5", "fo": [], "virtual": False})
+                (self.scn.add_objects(obj, refs) if e["via"] == "scn" else ln.add_traffic_sign(obj, refs))
+                self.grave["s"][i] = obj
+            else:
+                obj = mk_light({"id": i, "cyc": [[0, 2]], "off": 0})
+                (self.scn.add_objects(obj, refs) if e["via"] == "scn" else ln.add_traffic_light(obj, refs))
+                self.grave["t"][i] = obj
+        elif k == "add_inter":
+            if not L:
+                return None
+            self.fresh_id += 3
+            i = self.fresh_id
+            ids = [int(x.lanelet_id) for x in L]
+            obj = mk_inter({"id": i, "incomings": [{"id": i - 1, "inc": [pick(ids, e["a"])], "right": sorted(mask(ids)),
+                                                    "straight": [pick(ids, e["b"])], "left": [], "leftOf": None}],
+                            "crossings": [pick(ids, e["c"])]})
+            (self.scn.add_objects(obj) if e["via"] == "scn" else ln.add_intersection(obj))
+            self.grave["i"][i] = obj
+        elif k == "translate":
+            t = np.array([float(e["dx"]), float(e["dy"])])
+            (self.scn.translate_rotate(t, 0.0) if e["via"] == "scn" else ln.translate_rotate(t, 0.0))
+            off = getattr(self, "offset", (0, 0))
+            self.offset = (off[0] + e["dx"], off[1] + e["dy"])
+            self.rects = {i: (r_[0] + e["dx"], r_[1] + e["dy"], r_[2] + e["dx"], r_[3] + e["dy"]) for i, r_ in self.rects.items()}
+            self.stale = False      # the repaired translate_rotate rebuilds the index
+        else:
+            raise ValueError(k)
+        return k
 
     def ids(self):
         return sorted(int(i) for i in self.scn._id_set)
 
 
 # ------------------------------------------------------------------------------------------------ oracle
+
+def all_ids(n):
+    """every id Scenario.add_objects(network) records: lanelets, signs, lights, intersections, incoming elements"""
+    return ([l["id"] for l in n["lanelets"]] + [x[0] for x in n["signs"]] + [x[0] for x in n["lights"]]
+            + [i["id"] for i in n["inters"]] + [c["id"] for i in n["inters"] for c in i["incomings"]])
+
 
 def py_nodangling(n):
     L = {l["id"] for l in n["lanelets"]}
@@ -569,21 +987,20 @@ def py_wf(n):
     return True
 
 
-def exact_keep(case, B, op):
-    """The selection of a cut-out derived from the case description alone (types; axis-aligned rectangle overlap in exact
-    arithmetic).  Returns (keep:set, exact:bool); exact=False -> only the type clause was decided here."""
-    spec = {la["id"]: la for la in case["lanelets"]}
+def exact_keep(geo, B, op):
+    """The selection of a cut-out derived from the description of the lanelets alone (types; axis-aligned rectangle overlap
+    in exact arithmetic; `geo` = where every lanelet lies and which types it has, kept up to date by the harness through
+    additions and translations).  Returns (keep:set, exact:bool); exact=False -> only the type clause was decided here."""
     excl = set(op["excl"] or [])
     sh = op["shape"]
     keep, exact = set(), True
     for l in B["lanelets"]:
-        la = spec[l["id"]]
-        if set(la["types"]) & excl:
+        if geo["types"][l["id"]] & excl:
             continue
         if sh is not None:
             if sh["kind"] == "rect" and Fraction(sh["o"]) == 0:
                 cx, cy, hl, hw = Fraction(sh["cx"]), Fraction(sh["cy"]), Fraction(sh["l"]) / 2, Fraction(sh["w"]) / 2
-                x0, y0, x1, y1 = _rect_of(la)
+                x0, y0, x1, y1 = geo["rects"][l["id"]]
                 if not (cx - hl <= x1 and x0 <= cx + hl and cy - hw <= y1 and y0 <= cy + hw):
                     continue
             else:
@@ -608,9 +1025,19 @@ def py_selection(op, mop, B, keep):
         selS = {op["x"]}
     elif k == "net_remove_light":
         selT = {op["x"]}
-    elif k in ("net_remove_inter", "scn_remove_inter"):
+    elif k == "net_remove_inter":
         selI = {mop["x"]}
         inc = {mop["x"]: {c["id"] for c in Bi[mop["x"]]["incomings"]}} if mop["x"] in Bi else {}
+    elif k in ("scn_remove_inter", "scn_remove_inters"):
+        selI = set(mop["xs"])
+        inc = {x: {c["id"] for c in Bi[x]["incomings"]} for x in selI if x in Bi}
+    elif k == "scn_remove_hanging":
+        rm = {a["id"] for a in mop["args"]}
+        remaining = [l for i, l in Bl.items() if i not in rm]
+        usedS = set().union(*[set(l["signs"]) for l in remaining]) if remaining else set()
+        usedT = set().union(*[set(l["lights"]) for l in remaining]) if remaining else set()
+        selS = set().union(*[set(a["signs"]) for a in mop["args"]]) - usedS
+        selT = set().union(*[set(a["lights"]) for a in mop["args"]]) - usedT
     elif k == "scn_remove_signs":
         selS = set(mop["xs"])
     elif k == "scn_remove_lights":
@@ -667,7 +1094,7 @@ class Rep:
         self.ctx.fail(f"C10/{self.op['op']}/{obs}", f"step {self.step} {json.dumps(self.op)[:160]}: {what}", c)
 
 
-def oracle_step(ctx, rep, case, op, mop, B, A, err, impl_keep=None):
+def oracle_step(ctx, rep, case, op, mop, B, A, err, impl_keep=None, geo=None):
     """The property sentence on one step: B / A = snapshots before / after, op = operation as generated, mop = as applied."""
     k = op["op"]
     Bl = {l["id"]: l for l in B["lanelets"]}
@@ -787,7 +1214,9 @@ def oracle_step(ctx, rep, case, op, mop, B, A, err, impl_keep=None):
     # (3) every element not selected for removal is still present; signs / lights leave with a lanelet only if unreferenced
     keep = None
     if k == "cut_out":
-        keep, exact = exact_keep(case, B, op)
+        if geo is None:
+            geo = {"rects": {la["id"]: _rect_of(la) for la in case["lanelets"]}, "types": {la["id"]: set(la["types"]) for la in case["lanelets"]}}
+        keep, exact = exact_keep(geo, B, op)
         if exact:
             if set(impl_keep) != keep:
                 rep.fail("selection/lanelets", f"filter kept {sorted(impl_keep)}, shape/type definition gives {sorted(keep)}")
@@ -797,6 +1226,8 @@ def oracle_step(ctx, rep, case, op, mop, B, A, err, impl_keep=None):
             keep = set(impl_keep)   # geometry of a rotated rectangle / circle / polygon: shapely on the implementation's shapes
     selL, selS, selT, selI, inc_may_go = py_selection(op, mop, B, keep)   # what the operation may remove
     must_go_L = selL
+    if k == "scn_remove_lanelets":
+        pass
     if k == "scn_remove_lanelets" and mop["ref"]:
         ofS = set().union(*[set(a["signs"]) for a in mop["args"]])
         if selS & set(Bs):
@@ -828,11 +1259,11 @@ def oracle_step(ctx, rep, case, op, mop, B, A, err, impl_keep=None):
             rep.fail(f"removed-unselected/{kind}", f"{kind}(s) {sorted(lost)} vanished although not selected for removal")
 
     present("lanelet", Bl, Al, selL)
-    if k in ("scn_remove_lanelets", "cut_out") and (remS - selS):
+    if k in ("scn_remove_lanelets", "scn_remove_hanging", "cut_out") and (remS - selS):
         rep.fail("removed-referenced/sign", f"sign(s) {sorted(remS - selS)} removed although a remaining lanelet references them")
     elif remS - selS:
         present("sign", Bs, As, selS)
-    if k in ("scn_remove_lanelets", "cut_out") and (remT - selT):
+    if k in ("scn_remove_lanelets", "scn_remove_hanging", "cut_out") and (remT - selT):
         rep.fail("removed-referenced/light", f"light(s) {sorted(remT - selT)} removed although a remaining lanelet references them")
     elif remT - selT:
         present("light", Bt, At, selT)
@@ -848,77 +1279,183 @@ def oracle_step(ctx, rep, case, op, mop, B, A, err, impl_keep=None):
         rep.fail("not-removed/sign", f"sign(s) {sorted(selS & set(As))} are still in the network")
     if err is None and k in ("net_remove_light", "scn_remove_lights") and (selT & set(At)):
         rep.fail("not-removed/light", f"light(s) {sorted(selT & set(At))} are still in the network")
-    if err is None and k in ("net_remove_inter", "scn_remove_inter") and (selI & set(Ai)):
+    if err is None and k in ("net_remove_inter", "scn_remove_inter", "scn_remove_inters") and (selI & set(Ai)):
         rep.fail("not-removed/intersection", f"intersection(s) {sorted(selI & set(Ai))} are still in the network")
 
 
 # ------------------------------------------------------------------------------------------------ one case
+
+def _canon_model_trace(out):
+    return [{"net": canon_net(x["net"]), "ids": sorted(x["ids"]), "err": x["err"], "nd": x["nd"], "wf": x["wf"]} for x in out]
+
+
+class Segment:
+    """a stretch of the history between two edits: one model run"""
+    def __init__(self, init):
+        self.init, self.mops, self.trace, self.sels = init, [], [], []
+
+    def flush(self, ctx, case):
+        if not self.mops:
+            return
+        out = ctx.driver.ask("C10", "run", {"init": self.init, "ops": self.mops})
+        ctx.compare(case, self.trace, _canon_model_trace(out),
+                    "history of removals / cut-outs on the real Scenario / LaneletNetwork vs CR.Refs.Scn.trace")
+        msel = ctx.driver.ask("C10", "selections", {"init": self.init, "ops": self.mops})
+        msel = [{"L": sorted(x["L"]), "S": sorted(x["S"]), "T": sorted(x["T"]), "I": sorted(x["I"]), "K": sorted(x["K"])} for x in msel]
+        ctx.compare(case, self.sels, msel, "what each operation selects for removal: the oracle's reading vs "
+                                           "CR.Refs.Scn.selections (the vocabulary of C10_present_run)")
+
+
+def _nfail(ctx):
+    return len(ctx.failures) if hasattr(ctx, "failures") else len(ctx.keys)
+
 
 def run_case(ctx, case, with_model=True):
     import warnings
     warnings.filterwarnings("ignore")
     wf_stream = case["stream"] == "wf"
     impl = Impl(case)
-    init = {"net": snapshot(impl.ln), "ids": impl.ids()}
+    B = snapshot(impl.ln)
+    seg = Segment({"net": B, "ids": impl.ids()})
     ctx.tag("stream:wf" if wf_stream else "stream:malformed")
+    ctx.tag("build:" + case.get("build", "net"))
+    if case.get("none_empty"):
+        ctx.tag("ctor:none-for-empty")
     if not wf_stream:
         ctx.excluded += 1
     ctx.case(case)
-    mops, trace, sels = [], [], []
-    B = init["net"]
     oracle_on = wf_stream and py_nodangling(B) and py_wf(B)
+    queried = edited = False
     for step, op in enumerate(case["ops"]):
-        if op["op"] == "cut_out" and op["shape"] is not None and impl.stale:
+        kind = op["op"]
+        rep = Rep(ctx, case, step, op)
+        # ---- operations the model does not see: they must not change what the property observes
+        if kind in ("query", "net_remove_area"):
+            ids0 = impl.ids()
+            if kind == "query":
+                impl.query(op)
+                queried = True
+            else:
+                if any(op["x"] in la.adjacent_areas for la in impl.ln.lanelets):
+                    # observation, outside the property (areas are not among its elements / relations): remove_area leaves the
+                    # lanelets' adjacent_areas untouched, after which create_from_lanelet_network raises (add_area(None)).
+                    ctx.tag("obs:remove_area-would-leave-adjacent_areas")
+                    continue
+                call(impl.ln.remove_area, impl._i(op["x"]))
+            A = snapshot(impl.ln)
+            ctx.tag(kind)
+            if A != B or impl.ids() != ids0:
+                rep.fail("network-changed", "a read-only query / remove_area changed a lanelet, sign, light or intersection")
+            B = A
+            continue
+        # ---- an edit by the user: the model starts again from the edited network
+        if kind == "edit":
+            name = impl.edit(op)
+            if name is None:
+                continue
+            if with_model:
+                seg.flush(ctx, case)
+            B = snapshot(impl.ln)
+            seg = Segment({"net": B, "ids": impl.ids()})
+            ctx.tag("edit", "edit:" + name)
+            edited = True
+            if oracle_on and not (py_nodangling(B) and py_wf(B)):
+                oracle_on = False
+                ctx.excluded += 1
+            continue
+        if kind == "cut_out" and op["shape"] is not None and impl.stale:
             ctx.tag("cut:shape-on-stale-index")
-        ids_before = set(impl.ids())
+        ids_before = impl.ids()
         present_before = ({l["id"] for l in B["lanelets"]} | {x[0] for x in B["signs"]} | {x[0] for x in B["lights"]}
                           | {i["id"] for i in B["inters"]})
+        geo = {"rects": dict(impl.rects), "types": dict(impl.types)}
+        impl.replaced = False
+        if kind == "cut_out":
+            # Areas are neither elements nor relations of the property and are not modelled.  A kept lanelet whose adjacent_areas
+            # names an area the network does not hold (left behind by create_from_lanelet_list, which copies lanelets but no
+            # areas) makes create_from_lanelet_network raise AssertionError (add_area(None)) without changing anything:
+            # outside the quantifier, no verdict, the operation is left out of the history.
+            have = {int(a.area_id) for a in impl.ln.areas}
+            keep_ = set(impl.keep_of(op))
+            if any(not set(la.adjacent_areas) <= have for la in impl.ln.lanelets if la.lanelet_id in keep_):
+                ctx.tag("obs:cut_out-raises-on-dangling-adjacent_areas")
+                ctx.excluded += 1
+                continue
         r = impl.apply(op)
         if r is None:
             continue
         res, mop = r
         err = None if res[0] == "ok" else res[1]
-        if op["op"].startswith("scn_remove") and err == "key":
-            gone = [x for x in (mop.get("xs") or [a["id"] for a in mop.get("args", [])] or [mop.get("x")])
-                    if x in ids_before and x not in present_before]
+        if kind.startswith("scn_remove") and err == "key":
+            gone = [x for x in (mop.get("xs") or [a["id"] for a in mop.get("args", [])])
+                    if x in set(ids_before) and x not in present_before]
             if gone:
                 ctx.tag("stale:id-still-in-pool")   # removed on network level before: KeyError from the look-up, not from _id_set
-        A = snapshot(impl.ln)
-        ctx.tag(op["op"])
+        stay = kind == "cut_out" and op.get("then") == "stay"
+        if stay and res[0] == "ok":
+            A = snapshot(res[1])
+            ids_after = sorted(all_ids(A))
+        elif stay:
+            A, ids_after = B, ids_before
+        else:
+            A = snapshot(impl.ln)
+            ids_after = impl.ids()
+        ctx.tag(kind)
+        if queried:
+            ctx.tag("after-query")
+        if edited:
+            ctx.tag("after-edit")
+        if impl.replaced:
+            ctx.tag("then:replace_lanelet_network")
+            if getattr(impl, "replace_error", None) is not None and oracle_on:
+                rep.fail(f"replace_lanelet_network/raises-{impl.replace_error[1]}",
+                         f"Scenario.replace_lanelet_network (erase_lanelet_network + add_objects) raises {impl.replace_error[2]} "
+                         "on a well-formed network")
         if err is not None:
             ctx.tag("error:" + err)
-        mops.append(mop)
-        sels.append(canon_selection(op, mop, B))
+        if impl.npint and kind.startswith("net_remove"):
+            ctx.tag("arg:numpy-int")
+        if not A["lanelets"] and B["lanelets"]:
+            ctx.tag("empty-network-left")
+        entry = {"net": A, "ids": ids_after, "err": err, "nd": py_nodangling(A), "wf": py_wf(A)}
+        if stay:
+            # side branch: the cut-out is compared on its own, the history goes on with the source network
+            ctx.tag("then:stay-on-source")
+            if with_model:
+                out = ctx.driver.ask("C10", "run", {"init": {"net": B, "ids": ids_before}, "ops": [mop]})
+                ctx.compare(case, [entry], _canon_model_trace(out), "cut-out (history continues on the source network) vs CR.Refs.Scn.step")
+            src = snapshot(impl.ln)
+            if src != B or impl.ids() != ids_before:
+                rep.fail("source-network-changed", "create_from_lanelet_network changed the network it was cut out of")
+        else:
+            seg.mops.append(mop)
+            seg.sels.append(canon_selection(op, mop, B))
+            seg.trace.append(entry)
         if any(l["id"] == 0 for l in B["lanelets"]) and not any(l["id"] == 0 for l in A["lanelets"]) and \
                 any(0 in (l["adjL"], l["adjR"]) for l in B["lanelets"] if any(a["id"] == l["id"] for a in A["lanelets"])):
             ctx.tag("id0:adjacent-lanelet-removed")
-        trace.append({"net": A, "ids": impl.ids(), "err": err, "nd": py_nodangling(A), "wf": py_wf(A)})
-        if oracle_on and not (op["op"] in ("cut_out", "from_list") and not op["cleanup"]):
-            rep = Rep(ctx, case, step, op)
-            if err is not None and op["op"] in ("cut_out", "from_list", "net_remove_lanelet", "net_remove_sign",
-                                                "net_remove_light", "net_remove_inter"):
+        if oracle_on and not (kind in ("cut_out", "from_list") and not op["cleanup"]):
+            if err is not None and kind in ("cut_out", "from_list", "net_remove_lanelet", "net_remove_sign",
+                                            "net_remove_light", "net_remove_inter"):
                 rep.fail(f"raises-{err}", f"raises {res[2]} on a well-formed network")
-            before = len(ctx.failures) if hasattr(ctx, "failures") else len(ctx.keys)
-            oracle_step(ctx, rep, case, op, mop, B, A, err, impl_keep=mop.get("keep"))
+            before = _nfail(ctx)
+            oracle_step(ctx, rep, case, op, mop, B, A, err, impl_keep=mop.get("keep"), geo=geo)
             if not py_nodangling(A):
                 rep.fail("dangling/any", "the network holds a reference to an id it does not contain")
-            if (len(ctx.failures) if hasattr(ctx, "failures") else len(ctx.keys)) != before:
+            if _nfail(ctx) != before:
                 oracle_on = False   # the rest of this history starts from a broken state: report the first failing step only
-        elif oracle_on:
+        elif oracle_on and not stay:
             oracle_on = False   # cleanup_ids=False leaves dangling references by design: outside the property from here on
             ctx.excluded += 1
-        B = A
-    if with_model and mops:
-        out = ctx.driver.ask("C10", "run", {"init": init, "ops": mops})
-        model = [{"net": canon_net(s["net"]), "ids": sorted(s["ids"]), "err": s["err"], "nd": s["nd"], "wf": s["wf"]} for s in out]
-        ctx.compare(case, trace, model, "history of removals / cut-outs on the real Scenario / LaneletNetwork vs CR.Refs.Scn.trace")
-        msel = ctx.driver.ask("C10", "selections", {"init": init, "ops": mops})
-        msel = [{"L": sorted(x["L"]), "S": sorted(x["S"]), "T": sorted(x["T"]), "I": sorted(x["I"]), "K": sorted(x["K"])} for x in msel]
-        ctx.compare(case, sels, msel, "what each operation selects for removal: the oracle's reading vs CR.Refs.Scn.selections "
-                                      "(the vocabulary of C10_present_run)")
+        if not stay:
+            B = A
+    if with_model:
+        seg.flush(ctx, case)
 
 
 def run(ctx):
+    from c10_dims import check_dimensions
+    check_dimensions()          # a constructor parameter / setter / method without a decision in the table: exit 2
     for p in sorted(glob.glob(os.path.join(CORPUS_DIR, "C10", "*.json"))):
         run_case(ctx, json.load(open(p)))
     for _ in range(ctx.n(1200)):
